@@ -51,6 +51,12 @@ CHECKS = {
              "the stated unambiguity condition and that a locked decoder equals that decoder forever after.",
         note="Dictionary represented by its contract (symbolic answer); std dictionary content not verified here. Backtrace stubbed.",
     ),
+    "C09": dict(
+        technique="Verus contract on the extracted group length computation against the PS3.10 Table 7.1-1 element list",
+        text="Unbounded proof (any string lengths, any optional-field combination) that the computed File Meta Information Group Length equals the "
+             "encoded size of the elements that follow it; storing, writing and reading back the table are not covered.",
+        note="Only the length computation is decided. Writer/reader of the meta group, attribute operations and preamble handling are uncovered.",
+    ),
     "C11": dict(
         technique="Kani/CBMC contract harnesses: loop-free over every stored number for to_int (complete); concrete small lengths for multi-valued conversions and edits (bounded)",
         text="Complete proof that binary integer values convert to every integer type exactly or fail; bounded checks of the multi-valued "
@@ -131,7 +137,6 @@ NOT_APPLICABLE = {
     "C35": "External binaries and the `image` crate.",
     "C36": "Parsing delegates to `std::net` address parsers and `str` splitting; string reasoning unsupported in Verus, too heavy for CBMC; no arithmetic or structural kernel to put under contract.",
     "C05": "check not built yet in this session (planned in DESIGN.md section 7); not claimed until its check runs",
-    "C09": "check not built yet in this session (planned in DESIGN.md section 7); not claimed until its check runs",
     "C17": "check not built yet in this session (planned in DESIGN.md section 7); not claimed until its check runs",
     "C22": "check not built yet in this session (planned in DESIGN.md section 7); not claimed until its check runs",
     "C27": "check not built yet in this session (planned in DESIGN.md section 7); not claimed until its check runs",
